@@ -110,7 +110,8 @@ theorem mergeTasks_ok_iff (t1 t2 : Table) (inc : Include) (itv : Vars) :
 
 /-- the result of a successful `Taskfile.Merge` -/
 def mergedTf (t1 t2 : Taskfile) (inc : Include) : Taskfile :=
-  let t1' : Taskfile := { t1 with vars := Vars.merge t1.vars (stampFor inc) t2.vars, env := Vars.merge t1.env (stampFor inc) t2.env }
+  let t1' : Taskfile := { t1 with vars := Vars.merge t1.vars (stampFor inc) t2.vars, env := Vars.merge t1.env (stampFor inc) t2.env,
+                                  output := if t1.output = 0 then t2.output else t1.output }
   { t1' with tasks := defaultAlias inc t2.tasks (t1.tasks ++ newTasks inc (itvOf t1' t2) t2.tasks) }
 
 /-- when `Taskfile.Merge` succeeds -/
@@ -149,7 +150,8 @@ theorem mergeTaskfile_iff (t1 t2 q : Taskfile) (inc : Include) :
       · rintro ⟨⟨_, _, hok⟩, rfl⟩
         obtain ⟨tb, hm⟩ := (mergeTasks_ok_iff t1.tasks t2.tasks inc
           (itvOf { t1 with vars := Vars.merge t1.vars (stampFor inc) t2.vars,
-                           env := Vars.merge t1.env (stampFor inc) t2.env } t2)).mpr hok
+                           env := Vars.merge t1.env (stampFor inc) t2.env,
+                           output := if t1.output = 0 then t2.output else t1.output } t2)).mpr hok
         have htb := mergeTasks_ok _ _ _ _ _ hm
         dsimp only
         simp only [hm]
